@@ -182,7 +182,7 @@ Lemma amicro_sound : forall m a a' s oc,
   amicro m a = inl a' -> gams a s ->
   cmicro m oc s = Blocked \/ exists s', cmicro m oc s = Next s' /\ gams a' s'.
 Proof.
-  intros m a a' s oc H G. destruct m as [v|v|v|v|v x|v|v|d own maynull ow|d|d sv mv own undef]; simpl in *.
+  intros m a a' s oc H G. destruct m as [v|v|v|v|v x|v|v|d own maynull ow|d|t|t|d sv mv own undef]; simpl in *.
   - (* MRead *) destruct (areadable (aget a v)) eqn:E; try discriminate. inversion H; subst.
     right. rewrite (areadable_sound _ _ E (G v)). eauto.
   - (* MTouch *) pose proof (G v) as Gv. right.
@@ -215,6 +215,11 @@ Proof.
     destruct own, maynull, oc; simpl; auto.
   - (* MDefNull *) destruct (Nat.eqb (aowned (aget a d)) 0) eqn:E; try discriminate. inversion H; subst.
     rewrite (owned0_of _ _ _ G E). right. eexists; split; [reflexivity|]. apply gams_set; auto. simpl. auto.
+  - (* MSlotInit *) pose proof (G t) as Gt. right.
+    destruct (aget a t) as [|u|k b|k b u|] eqn:E; try discriminate. inversion H; subst.
+    destruct (s t); simpl in Gt; try contradiction.
+    eexists; split; [reflexivity|]. apply gams_set; simpl; auto.
+  - (* MSlotKill *) right. inversion H; subst. eexists; split; [reflexivity|]. apply gams_set; simpl; auto.
   - (* MMove *) destruct (areadable (aget a sv)) eqn:ER; try discriminate.
     rewrite (areadable_sound _ _ ER (G sv)). right.
     assert (HR : exists a1, (if mv then arelease false sv (BFrom d) a else inl a) = inl a1 /\
@@ -331,9 +336,14 @@ Qed.
 Lemma inv_init : forall c, initial_config f c -> inv c.
 Proof.
   intros c [b [Hb [Hr [Ht Hs]]]].
-  assert (G0 : gams (init_astate (fargs f)) (cst c)).
-  { intro v. specialize (Hs v). revert Hs. generalize (fargs f). induction l as [|[a o] r IH]; simpl.
-    - intro E. unfold aget. rewrite PositiveMap.gempty. rewrite E. exact I.
+  assert (G0 : gams (init_astate f) (cst c)).
+  { intro v. specialize (Hs v). revert Hs. unfold init_astate. generalize (fargs f).
+    induction l as [|[a o] r IH]; simpl.
+    - generalize (ftokens f). induction l as [|t r IH]; simpl.
+      + intro E. unfold aget. rewrite PositiveMap.gempty. rewrite E. exact I.
+      + rewrite aget_aset. destruct (Pos.eqb v t); simpl.
+        * intro E. rewrite E. reflexivity.
+        * exact IH.
     - rewrite aget_aset. destruct (Pos.eqb v a).
       + intros [E|[Ho E]]; rewrite E; destruct o; simpl; auto; discriminate.
       + exact IH. }
